@@ -241,6 +241,21 @@ var All = []*Adapter{
 		m, rem, errs := data.NewMapping(b)
 		return Result{Val: m, Rem: rem, HasRem: true, OK: mappingOK(errs, rem) && m != nil}
 	}},
+	{Name: "ReadMappingValues", Gen: func(r *engine.RNG) *engine.Shape {
+		sh := mappingShape(r)
+		if len(sh.Opts) == 0 {
+			sh.Opts = [][2]string{{"k", "v"}}
+		}
+		return sh
+	}, Arg: noArg, Parse: func(b []byte, _ int) Result {
+		// the frame is a whole mapping; its two size bytes are handed over as
+		// the declared length, the rest as the data to read the pairs from
+		if len(b) < 2 {
+			return Result{HasRem: true}
+		}
+		vals, rem, errs := data.ReadMappingValues(b[2:], data.Integer(b[:2]))
+		return Result{Val: vals, Rem: rem, HasRem: true, OK: mappingOK(errs, rem) && vals != nil}
+	}},
 	{Name: "ReadCertificate", C08: true, Gen: func(r *engine.RNG) *engine.Shape {
 		sh := &engine.Shape{Kind: "cert", Seed: r.Uint64() | 1, U: []uint64{uint64(r.PickInt(0, 0, 1, 2, 3, 4, 5, 5, 6, 77, 255))}, N: r.PickInt(0, 0, 1, 3, 4, 5, 40, 72, 300)}
 		if r.Chance(1, 12) {
